@@ -766,17 +766,6 @@ Proof. intros H. rewrite indentation_irrelevant. apply events_roundtrip. exact H
 (* ------------------------------------------------------------------------------------------- *)
 (* E. sophia: convert_triple, serialize_triples, and the parser adapter                         *)
 (* ------------------------------------------------------------------------------------------- *)
-Definition is_node_term (t : term) : bool := match t with Iri _ | Bnode _ => true | _ => false end.
-Definition is_iri_term (t : term) : bool := match t with Iri _ => true | _ => false end.
-Definition is_obj_term (t : term) : bool :=
-  match t with Iri _ | Bnode _ | LitDt _ _ | LitLang _ _ => true | _ => false end.
-(* the triples RDF/XML can express, as far as sophia is concerned *)
-Definition representable (t : term * term * term) : bool :=
-  let '(s, p, o) := t in is_node_term s && is_iri_term p && is_obj_term o.
-Definition flat_term (t : term) : bool := match t with Triple _ _ _ => false | _ => true end.
-Definition flat3 (t : term * term * term) : bool :=
-  let '(s, p, o) := t in flat_term s && flat_term p && flat_term o.
-
 (* THEOREM (sophia convert_triple): exactly the triples with IRI/blank subject, IRI predicate and
    IRI/blank/literal object are handed to the formatter, unchanged (unconvert is the parser-side
    adapter, so this is also "adapter after convert_triple = identity") *)
@@ -821,8 +810,6 @@ Proof.
   - rewrite (convert_skips t Ht R). auto.
 Qed.
 
-Definition norm_term3 (t : term * term * term) : term * term * term :=
-  let '(s, p, o) := t in (s, p, match o with LitLang v tag => LitLang v (lower tag) | x => x end).
 Lemma unconvert_norm x : unconvert (norm_t x) = norm_term3 (unconvert x).
 Proof. destruct x as [[s p] o]. destruct o as [n|v|v tag|v dt]; try reflexivity. destruct n; reflexivity. Qed.
 
@@ -907,8 +894,9 @@ Proof. vm_compute. split; reflexivity. Qed.
 (* a character outside XML's Char production is written raw, without an error *)
 Example illegal_char_written :
   let g := [(ex_s, ex_p, LitDt [1] xsd_string)] in
-  (exists d, serialize 0 g = SerOk d /\ xml_str d = false) /\ model_parse false 0 g = Some g /\ model_parse true 0 g = None.
-Proof. vm_compute. split; [eexists; split; reflexivity|split; reflexivity]. Qed.
+  match serialize 0 g with SerOk d => xml_str d | _ => true end = false
+  /\ model_parse false 0 g = Some g /\ model_parse true 0 g = None.
+Proof. vm_compute. repeat split; reflexivity. Qed.
 (* generalised triples are skipped, the rest is kept *)
 Example generalised_skipped :
   model_parse true 2 [(LitDt [49] xsd_string, ex_p, ex_s); (ex_s, Bnode [98], ex_s); (ex_s, ex_p, Var [118]); (ex_s, ex_p, ex_s)]
